@@ -97,7 +97,12 @@ func caseVariant(r *rng, s string) string {
 			b[i] -= 32
 		}
 	}
-	return string(b)
+	out := string(b)
+	if r.chance(1, 4) {
+		// strings.ToLower is Unicode-aware: KELVIN SIGN folds to k, U+0130 to i
+		out = strings.NewReplacer("k", "\u212a", "K", "\u212a").Replace(out)
+	}
+	return out
 }
 
 func init() {
@@ -186,6 +191,8 @@ func init() {
 			if k1 != k2 || c1 != c2 || o1 != o2 {
 				viol = append(viol, fmt.Sprintf("case variant / trailing sections of %q resolve differently", sp))
 			}
+			// not a case variant: LONG S does not fold to s (correspondence only, no expectation)
+			render(strings.NewReplacer("s", "\u017f").Replace(sp))
 			// texttable.NAME == NAME for plain names
 			names := decoration.RegisteredDecorationNames()
 			n := names[r.n(len(names))]
